@@ -422,4 +422,5 @@ MUTANTS = [
     ('none-minus-ret', 'miasmx/arch/ia32_arch.py', "        'leave', 'ret', 'nop',", "        'leave', 'nop',", 'C09.D1'),
     ('from-att-set-order', 'miasmx/arch/ia32_arch.py', "    elif name.startswith('set'):\n        if name.endswith('b') and not name in [ 'setb', 'setnb' ]:", "    elif name.startswith('set'):\n        if name.endswith('b') and not name in [ 'setnb' ]:", 'C09.D2'),
     ('movzx-bw', 'miasmx/arch/ia32_arch.py', "        elif sz == (u16, u08):\n            return name[:4]+'bw'", "        elif sz == (u16, u08):\n            return name[:4]+'wb'", 'C09.D2'),
+    ('movsx-ww-unknown', 'miasmx/arch/ia32_arch.py', "        elif sz == (u16, u16):\n", "        elif False:\n", 'C09.D1'),
 ]
